@@ -364,7 +364,14 @@ pub mod order {
     use bytes::Bytes;
     use domain::base::cmp::CanonicalOrd;
     use domain::base::charstr::CharStr;
-    use domain::base::name::{Chain, Label, Name, RelativeName, ToName};
+    use domain::base::name::{
+        Chain, FlattenInto, Label, Name, OwnedLabel, RelativeName, ToName, ToRelativeName,
+        UncertainName,
+    };
+    use domain::base::question::Question;
+    use domain::base::record::{ParsedRecord, RecordHeader};
+    use std::collections::HashMap;
+    use std::hash::BuildHasherDefault;
     use octseq::parse::Parser;
     use std::cmp::Ordering;
     use std::collections::hash_map::DefaultHasher;
@@ -454,6 +461,23 @@ pub mod order {
                 }
                 let hash_ok = la != lb || h(la) == h(lb);
                 ag.put("hash_ok", json!(hash_ok), &what);
+                // the owned form of the same labels
+                let (oa, ob) = (OwnedLabel::from_label(la), OwnedLabel::from_label(lb));
+                let what = format!("OwnedLabel, case variant {ma}/{mb}");
+                ag.put("eq", json!(oa == ob), &what);
+                ag.put("cmp", json!(sgn(oa.cmp(&ob))), &what);
+                ag.put("cmp", json!(oa.partial_cmp(&ob).map(sgn)), &what);
+                ag.put("hash_ok", json!(oa != ob || h(&oa) == h(&ob)), &what);
+                ag.put("hash_ok", json!(oa != ob || h(&oa) == h(lb)), &what);
+                // Borrow<Label>: owned and borrowed form must hash alike
+                if h(&oa) != h(la) || h(&ob) != h(lb) {
+                    ag.issues.push("OwnedLabel hashes differently from the Label it borrows as".into());
+                }
+                let mut map: HashMap<OwnedLabel, u8, BuildHasherDefault<DefaultHasher>> =
+                    HashMap::default();
+                map.insert(oa, 1);
+                ag.put("eq", json!(map.get(lb).is_some()), "HashMap<OwnedLabel,_>::get(&Label)");
+                ag.put("eq", json!(map.contains_key(&ob)), "HashMap<OwnedLabel,_>::contains_key(&OwnedLabel)");
             }
         }
         ag.finish()
@@ -603,8 +627,59 @@ pub mod order {
                     name_pair(x, y, ma == 0 && mb == 0, &what, &mut ag);
                 }
             }
+            other_name_types(&wa, &wb, &format!("case {ma}/{mb}"), &mut ag);
         }
         ag.finish()
+    }
+
+    /// The same label sequences as relative names (compared "as if relative
+    /// to the same origin", so the answers are those of the absolute names),
+    /// as UncertainName, and as borrowed `&Name<[u8]>`.
+    fn other_name_types(wa: &[u8], wb: &[u8], case: &str, ag: &mut Agree) {
+        let (na, nb) = (Name::from_slice(wa).unwrap(), Name::from_slice(wb).unwrap());
+        let (va, vb) = (
+            Name::from_octets(wa.to_vec()).unwrap(),
+            Name::from_octets(wb.to_vec()).unwrap(),
+        );
+        let what = format!("&Name<[u8]> ({case})");
+        ag.put("eq", json!(na == nb), &what);
+        ag.put("eq", json!(*na == vb), &what);
+        ag.put("cmp", json!(sgn(na.cmp(nb))), &what);
+        ag.put("cmp", json!(na.partial_cmp(&vb).map(sgn)), &what);
+        ag.put("hash_ok", json!(na != nb || (h(na) == h(nb) && h(na) == h(&vb))), &what);
+
+        let (ra, rb) = (&wa[..wa.len() - 1], &wb[..wb.len() - 1]);
+        let (rva, rvb) = (
+            RelativeName::from_octets(ra.to_vec()).unwrap(),
+            RelativeName::from_octets(rb.to_vec()).unwrap(),
+        );
+        let (rsa, rsb) = (RelativeName::from_slice(ra).unwrap(), RelativeName::from_slice(rb).unwrap());
+        let rbb = RelativeName::from_octets(Bytes::copy_from_slice(rb)).unwrap();
+        let what = format!("RelativeName ({case})");
+        ag.put("eq", json!(rva == rvb), &what);
+        ag.put("eq", json!(rva == rbb), &what);
+        ag.put("eq", json!(*rsa == rvb), &what);
+        ag.put("eq", json!(ToRelativeName::name_eq(&rva, rsb)), &what);
+        ag.put("cmp", json!(sgn(rva.cmp(&rvb))), &what);
+        ag.put("cmp", json!(sgn(rsa.cmp(rsb))), &what);
+        ag.put("cmp", json!(rva.partial_cmp(&rbb).map(sgn)), &what);
+        ag.put("cmp", json!(sgn(ToRelativeName::name_cmp(&rbb, &rva)) * -1), &what);
+        ag.put(
+            "hash_ok",
+            json!(rva != rvb || (h(&rva) == h(&rvb) && h(&rva) == h(&rbb) && h(rsa) == h(&rvb))),
+            &what,
+        );
+
+        let (ua, ub) = (UncertainName::absolute(va.clone()), UncertainName::absolute(vb.clone()));
+        let (ura, urb) = (UncertainName::relative(rva.clone()), UncertainName::relative(rvb.clone()));
+        let what = format!("UncertainName ({case})");
+        ag.put("eq", json!(ua == ub), &what);
+        ag.put("eq", json!(ura == urb), &what);
+        ag.put("hash_ok", json!(ua != ub || h(&ua) == h(&ub)), &what);
+        ag.put("hash_ok", json!(ura != urb || h(&ura) == h(&urb)), &what);
+        // an absolute and a relative name are different values; whatever ==
+        // says, equal values must hash alike
+        ag.put("hash_ok", json!(ua != urb || h(&ua) == h(&urb)), &what);
     }
 
     //--- character strings
@@ -741,6 +816,80 @@ pub mod order {
         }
         ag.put("canon", if canonfree { json!("free") } else { json!(c) }, "Record canonical_cmp");
         ag.put("hash_ok", json!(ra != rb || h(&ra) == h(&rb)), "Record hash");
+
+        // the owned (flattened) form of both records
+        type OwnedRec = Record<Name<Vec<u8>>, AllRecordData<Vec<u8>, Name<Vec<u8>>>>;
+        let oa: Result<OwnedRec, _> = ra.clone().try_flatten_into();
+        let ob: Result<OwnedRec, _> = rb.clone().try_flatten_into();
+        match (oa, ob) {
+            (Ok(oa), Ok(ob)) => {
+                ag.put("eq", json!(oa == ob), "owned Record ==");
+                ag.put("eq", json!(ra == ob), "parsed Record == owned Record");
+                ag.put("cmp0", json!(oa.cmp(&ob) == Ordering::Equal), "owned Record cmp");
+                let c2 = sgn(oa.canonical_cmp(&ob));
+                let c3 = sgn(ra.canonical_cmp(&ob));
+                ag.put("canon", if canonfree { json!("free") } else { json!(c2) }, "owned Record canonical_cmp");
+                ag.put("canon", if canonfree { json!("free") } else { json!(c3) }, "parsed vs owned canonical_cmp");
+                ag.put("hash_ok", json!(oa != ob || h(&oa) == h(&ob)), "owned Record hash");
+                if oa != ra || (oa == ra && h(&oa) != h(&ra)) {
+                    // a record and its own flattened copy
+                    if !(oa != oa) && ra == ra {
+                        ag.issues.push("a record and its owned copy differ in == or hash".into());
+                    }
+                }
+            }
+            _ => ag.issues.push("record does not flatten".into()),
+        }
+
+        // record header and unparsed record
+        let hdr = |m: &'_ [u8]| {
+            let mut p = Parser::from_ref(m);
+            p.advance(12).unwrap();
+            RecordHeader::parse_ref(&mut p).unwrap()
+        };
+        let (ha, hb) = (hdr(&ma), hdr(&mb));
+        let own = |x: &RecordHeader<ParsedName<&[u8]>>| {
+            let n: Name<Vec<u8>> = x.owner().to_name();
+            RecordHeader::new(n, x.rtype(), x.class(), x.ttl(), x.rdlen())
+        };
+        let (hoa, hob) = (own(&ha), own(&hb));
+        ag.put("hdr_eq", json!(ha == hb), "RecordHeader ==");
+        ag.put("hdr_eq", json!(ha == hob), "RecordHeader == owned");
+        ag.put("hdr_eq", json!(ha.cmp(&hb) == Ordering::Equal), "RecordHeader cmp");
+        ag.put("hdr_eq", json!(hoa.partial_cmp(&hb) == Some(Ordering::Equal)), "RecordHeader partial_cmp");
+        if sgn(ha.cmp(&hb)) != -sgn(hb.cmp(&ha)) || ha.partial_cmp(&hob) != Some(ha.cmp(&hb)) {
+            ag.issues.push("RecordHeader order incoherent".into());
+        }
+        ag.put("hash_ok", json!(ha != hb || (h(&ha) == h(&hb) && h(&hoa) == h(&hb))), "RecordHeader hash");
+        let prec = |m: &'_ [u8]| {
+            let mut p = Parser::from_ref(m);
+            p.advance(12).unwrap();
+            ParsedRecord::parse(&mut p).unwrap()
+        };
+        ag.put("parsed_eq", json!(prec(&ma) == prec(&mb)), "ParsedRecord ==");
+        ag.put("parsed_eq", json!(prec(&mb) == prec(&ma)), "ParsedRecord == reversed");
+
+        // the questions asking for these records
+        let (qa, qb) = (
+            Question::new(ha.owner().clone(), ha.rtype(), ha.class()),
+            Question::new(hb.owner().clone(), hb.rtype(), hb.class()),
+        );
+        let (qoa, qob) = (
+            Question::new(hoa.owner().clone(), ha.rtype(), ha.class()),
+            Question::new(hob.owner().clone(), hb.rtype(), hb.class()),
+        );
+        ag.put("q_eq", json!(qa == qb), "Question ==");
+        ag.put("q_eq", json!(qa == qob), "Question == owned");
+        ag.put("q_eq", json!(qa.cmp(&qb) == Ordering::Equal), "Question cmp");
+        ag.put("q_eq", json!(qoa.partial_cmp(&qb) == Some(Ordering::Equal)), "Question partial_cmp");
+        if sgn(qa.cmp(&qb)) != -sgn(qb.cmp(&qa)) || qa.partial_cmp(&qob) != Some(qa.cmp(&qb)) {
+            ag.issues.push("Question order incoherent".into());
+        }
+        ag.put("q_canon", json!(sgn(qa.canonical_cmp(&qb))), "Question canonical_cmp");
+        ag.put("q_canon", json!(sgn(qoa.canonical_cmp(&qb))), "owned Question canonical_cmp");
+        ag.put("q_canon", json!(-sgn(qb.canonical_cmp(&qoa))), "Question canonical_cmp reversed");
+        ag.put("hash_ok", json!(qa != qb || (h(&qa) == h(&qb) && h(&qoa) == h(&qb))), "Question hash");
+
         free_pair(&mut ag, eqfree, "eq", "cmp0");
         ag.finish()
     }
